@@ -227,7 +227,9 @@ class Component( ComponentLevel7 ):
     # the value/method nets.
     connection_pairs = []
     for (x, y) in provided_connections:
-      connection_pairs.append( x )
+      # both ends are saved by name for a connection between two ports of
+      # the removed component that was made at the parent
+      connection_pairs.append( eval(x) if isinstance( x, str ) else x )
       connection_pairs.append( eval(y) )
       if not top._dsl._has_pending_value_connections and isinstance( x, Signal ):
         top._dsl._has_pending_value_connections = True
@@ -424,6 +426,10 @@ class Component( ComponentLevel7 ):
               if isinstance( other, Const ):
                 del parent._dsl.adjacency[other]
                 parent._dsl.consts.remove( other )
+            elif other in parent._dsl.adjacency:
+              # A connection between two removed ports made at the parent
+              # (other is still a key: this pair has not been saved yet)
+              saved_connections.append( ("top"+repr(other)[1:], "top"+repr(x)[1:]) )
           del parent._dsl.adjacency[x]
 
       for x in removed_components:
